@@ -1,12 +1,135 @@
 (* C06 -- Transformations are lazy and actions evaluate each element exactly once.
-   Only statements, each closed by [exact] of a lemma from PV.Proofs.Lazy. *)
+   Only statements, each closed by [exact] of a lemma from PV.Proofs.Lazy.
+
+   Vocabulary (PV.Model.Lazy): an event (s, p, j, v) is "the user function of stage s was called on the value v, which
+   is element number j of the input of that stage in partition p" (stage 0 = reading the source, stages 1..k the
+   pipeline, k+1 / k+2 the functions handed to the action).  [job_log a stages parts] is the sequence of calls the
+   single-pass action a makes, [take_log n stages parts] the calls of take(n); first() and isEmpty() are take(1).
+   [sem_pipe stages xs] is the plain-list meaning of the pipeline on one partition.  Stages range over ALL
+   functions Z -> Z, Z -> bool, Z -> list Z ..., partitionings over all lists of lists. *)
 From Coq Require Import ZArith List Bool Permutation.
 Require Import PV.Model.Lazy PV.Proofs.Lazy.
 Import ListNotations.
 Open Scope Z_scope.
 
+(* -- clause 1: defining never invokes a user function ------------------------------------------------------------ *)
 (* Defining any sequence of transformations (element-wise, sampling, persistence, mapPartitions) leaves the log of
-   user-function calls empty and yields exactly that lineage.  (True by construction of the evaluator; the content
-   is that the implementation agrees: the harness measures the log after the definitions on every case.) *)
+   user-function calls empty and yields exactly that lineage; hence a program "define, then one query" logs 0 calls
+   before the query.  (True by construction of the evaluator; the content is that the implementation agrees: the
+   harness measures the log after the definitions on every generated case.) *)
 Theorem define_silent : forall stages, define_all stages = (stages, []).
 Proof. exact define_all_silent. Qed.
+Theorem program_defines_silently : forall stages q parts,
+  run_program stages q parts = (0%nat, run_query q stages parts).
+Proof. exact program_spec. Qed.
+
+(* -- clause 2: single-pass actions ------------------------------------------------------------------------------- *)
+(* For every single-pass action, pipeline and partitioning the log is a rearrangement of the expected calls
+   -- per partition: one read per source element, the calls [exp_from] of every stage on its plain-list input, the
+   calls of the action's function on the pipeline output -- and the expected calls are pairwise distinct. *)
+Theorem single_pass_exactly_once : forall a stages parts,
+  Permutation (job_log a stages parts) (pipeline_events stages parts ++ action_events a stages parts) /\
+  NoDup (pipeline_events stages parts ++ action_events a stages parts).
+Proof. exact single_pass_spec. Qed.
+
+(* the same as call counts: every expected call happens exactly once, nothing else happens *)
+Theorem single_pass_call_counts : forall a stages parts e,
+  (In e (pipeline_events stages parts ++ action_events a stages parts) ->
+   count_occ event_eq_dec (job_log a stages parts) e = 1%nat) /\
+  (~ In e (pipeline_events stages parts ++ action_events a stages parts) ->
+   count_occ event_eq_dec (job_log a stages parts) e = 0%nat).
+Proof. exact single_pass_counts. Qed.
+
+(* spelled out for an element-wise stage (map / filter / flatMap / sample = the stages with a [kernel]): the function
+   of stage i+1 is called exactly once on each element of the plain-list input of that stage, in each partition ... *)
+Theorem elementwise_once_per_element : forall a stages parts i st k pn xs jn v,
+  nth_error stages i = Some st -> kernel st = Some k ->
+  nth_error parts pn = Some xs -> nth_error (sem_pipe (firstn i stages) xs) jn = Some v ->
+  count_occ event_eq_dec (job_log a stages parts) (Z.of_nat i + 1, Z.of_nat pn, Z.of_nat jn, v) = 1%nat.
+Proof. exact elementwise_called_once. Qed.
+(* ... and on nothing else *)
+Theorem elementwise_only_on_elements : forall a stages parts i st k p j v,
+  nth_error stages i = Some st -> kernel st = Some k ->
+  In (Z.of_nat i + 1, p, j, v) (job_log a stages parts) ->
+  exists pn xs jn, p = Z.of_nat pn /\ j = Z.of_nat jn /\ nth_error parts pn = Some xs /\
+                   nth_error (sem_pipe (firstn i stages) xs) jn = Some v.
+Proof. exact elementwise_called_only_on_elements. Qed.
+Theorem source_element_read_once : forall a stages parts pn xs jn v,
+  nth_error parts pn = Some xs -> nth_error xs jn = Some v ->
+  count_occ event_eq_dec (job_log a stages parts) (0, Z.of_nat pn, Z.of_nat jn, v) = 1%nat.
+Proof. exact source_read_once. Qed.
+Theorem single_pass_no_call_twice : forall a stages parts, NoDup (job_log a stages parts).
+Proof. exact job_log_NoDup. Qed.
+
+(* -- clause 3: take(n), first(), isEmpty() ----------------------------------------------------------------------- *)
+Theorem take_returns_prefix : forall n stages parts,
+  take_result n stages parts = firstn n (concat (map (sem_pipe stages) parts)).
+Proof. exact take_result_spec. Qed.
+
+(* If the first q+1 partitions hold at least n output elements (so the n-th returned element lies in partition <= q),
+   every call made by take(n) belongs to a partition <= q: no partition after the one containing the last returned
+   element is evaluated.  (When fewer than n elements exist, every partition has to be evaluated to find that out;
+   the property is read for the case that the n-th element exists.) *)
+Theorem take_frontier : forall n stages parts q e,
+  (n <= length (concat (firstn (S q) (map (sem_pipe stages) parts))))%nat ->
+  In e (take_log n stages parts) -> 0 <= epart e <= Z.of_nat q.
+Proof. exact take_log_frontier. Qed.
+Theorem take_zero_no_events : forall stages parts, take_log 0 stages parts = [].
+Proof. exact take_zero_silent. Qed.
+
+(* take(n) performs a prefix of the calls collect() performs, in the same order: it never does anything a full pass
+   would not do, and it stops early *)
+Theorem take_prefix_of_collect : forall n stages parts,
+  exists rest, job_log ACollect stages parts = take_log n stages parts ++ rest.
+Proof. exact take_log_prefix. Qed.
+
+(* no element is evaluated twice by take(n) (an event identifies stage, partition and element) *)
+Theorem take_no_dup : forall n stages parts, NoDup (take_log n stages parts).
+Proof. exact take_log_NoDup. Qed.
+Theorem take_only_on_elements : forall n stages parts i st k p j v,
+  nth_error stages i = Some st -> kernel st = Some k ->
+  In (Z.of_nat i + 1, p, j, v) (take_log n stages parts) ->
+  exists pn xs jn, p = Z.of_nat pn /\ j = Z.of_nat jn /\ nth_error parts pn = Some xs /\
+                   nth_error (sem_pipe (firstn i stages) xs) jn = Some v.
+Proof. exact take_elementwise_only_on_elements. Qed.
+
+(* first() and isEmpty() evaluate exactly what take(1) evaluates, so the three theorems above cover them *)
+Theorem first_is_take_one : forall stages parts, fst (run_query QFirst stages parts) = take_log 1 stages parts.
+Proof. exact query_log_first. Qed.
+Theorem isEmpty_is_take_one : forall stages parts, fst (run_query QIsEmpty stages parts) = take_log 1 stages parts.
+Proof. exact query_log_isEmpty'. Qed.
+
+(* -- non-vacuity / sanity ------------------------------------------------------------------------------------------ *)
+(* doctest of RDD.cache(): parallelize([1,2,3,4], 2).map(_map).cache(); first() runs _map on the first partition only *)
+Example cache_doctest :
+  let stages := [SMap (fun e => e * e); SPersist] in
+  let parts := parallelize [1; 2; 3; 4] 2 in
+  filter (fun e => estage e =? 1) (fst (run_query QFirst stages parts)) = [(1, 0, 0, 1); (1, 0, 1, 2)] /\
+  snd (run_query QFirst stages parts) = RInt 1 /\
+  length (filter (fun e => estage e =? 1) (job_log ACollect stages parts)) = 4%nat.
+Proof. vm_compute. repeat split. Qed.
+
+(* doctest of take(): parallelize([4,7,2], 3).take(2) computes the first two partitions only; the frontier theorem's
+   hypothesis holds with q = 1 *)
+Example take_doctest :
+  let parts := parallelize [4; 7; 2] 3 in
+  take_log 2 [] parts = [(0, 0, 0, 4); (0, 1, 0, 7)] /\ take_result 2 [] parts = [4; 7] /\
+  (2 <= length (concat (firstn 2 (map (sem_pipe []) parts))))%nat.
+Proof. vm_compute. repeat split; auto. Qed.
+
+(* a filter makes take look further, and stop in the middle of a partition *)
+Example take_filter :
+  let stages := [SFilter (fun x => x mod 2 =? 0)] in
+  let parts := [[1; 3]; [5; 6; 7; 8]; [10]] in
+  take_log 1 stages parts =
+    [(0, 0, 0, 1); (1, 0, 0, 1); (0, 0, 1, 3); (1, 0, 1, 3); (0, 1, 0, 5); (1, 1, 0, 5); (0, 1, 1, 6); (1, 1, 1, 6)].
+Proof. vm_compute. reflexivity. Qed.
+
+(* the element-wise hypotheses are satisfiable: stage 2 of map;filter on [[1;2];[3]] sees 2,3 / 4 *)
+Example elementwise_instance :
+  let stages := [SMap (fun x => x + 1); SFilter (fun x => x >? 2)] in
+  nth_error stages 1 = Some (SFilter (fun x => x >? 2)) /\
+  nth_error (sem_pipe (firstn 1 stages) [1; 2]) 1 = Some 3 /\
+  count_occ event_eq_dec (job_log AForeach stages [[1; 2]; [3]]) (2, 0, 1, 3) = 1%nat /\
+  action_events AForeach stages [[1; 2]; [3]] = [(3, 0, 0, 3); (3, 1, 0, 4)].
+Proof. vm_compute. repeat split. Qed.
